@@ -59,22 +59,47 @@ def expect_range(feats, contig, a, b, st):
     return must, may
 
 
-def expect_read(feats, contig, positions, deleted, st):
-    must, may = set(), set()
+_RUNS = {}
+
+
+def runs(positions):
+    """maximal runs of consecutive reference bases, as closed (lo, hi) pairs"""
+    r = _RUNS.get(positions)
+    if r is None:
+        r = []
+        for p in sorted(positions):
+            if r and r[-1][1] == p - 1:
+                r[-1][1] = p
+            else:
+                r.append([p, p])
+        r = _RUNS[positions] = tuple((a, b) for a, b in r)
+    return r
+
+
+def expect_read_all(feats, contig, positions, deleted):
+    """-> {strand: (must, may)} for strand in None, '+', '-'"""
+    out = {None: (set(), set()), '+': (set(), set()), '-': (set(), set())}
+    blocks, dels = runs(positions), runs(deleted)
     for f in feats:
         if f[0] != contig:
             continue
-        hi_must = f[2] - 1 if f[5] else f[2]
-        in_must = any(f[1] <= p <= hi_must for p in positions)
-        in_may = in_must or any(f[1] <= p <= f[2] for p in positions) or any(f[1] <= p <= f[2] for p in deleted)
-        if not in_may:
+        s, e = f[1], f[2]
+        hi_must = e - 1 if f[5] else e
+        in_must = any(max(a, s) <= min(b, hi_must) for a, b in blocks)
+        if not in_must and not any(max(a, s) <= min(b, e) for a, b in blocks) and not any(max(a, s) <= min(b, e) for a, b in dels):
             continue
-        m, y = _strand_sets(f[4], st)
-        if m and in_must:
-            must.add(key_of(f))
-        if y:
-            may.add(key_of(f))
-    return must, may
+        k = key_of(f)
+        for st, (must, may) in out.items():
+            m, y = _strand_sets(f[4], st)
+            if m and in_must:
+                must.add(k)
+            if y:
+                may.add(k)
+    return out
+
+
+def expect_read(feats, contig, positions, deleted, st):
+    return expect_read_all(feats, contig, positions, deleted)[st]
 
 
 def verdict(got, must, may):
@@ -109,4 +134,12 @@ def gtf_expected(recs, fields, select=None, offset=-1, contig=None, region=None)
 
 
 def bed_expected(recs):
-    return [(contig, s, e, None, strand, True) for contig, s, e, name, strand, ncol in recs]
+    """one feature per line, or per block of a 12-column line (block start is relative to the line's start)"""
+    out = []
+    for contig, s, e, name, strand, ncol, blocks in recs:
+        if blocks is None:
+            out.append((contig, s, e, None, strand, True))
+        else:
+            for rel, size in blocks:
+                out.append((contig, s + rel, s + rel + size, None, strand, True))
+    return out
